@@ -435,6 +435,8 @@ def fuse_generators(fn, find_method=None, find_function=None, rounds=3):
                     v = straightline_value(it, find_method, find_function)
                     if v is not None:
                         it = v
+                elif isinstance(it, ast.Name) and isinstance(local_gens.get(it.id), (ast.GeneratorExp, ast.ListComp)):
+                    it = local_gens[it.id]
                 if not (isinstance(it, (ast.GeneratorExp, ast.ListComp)) and isinstance(it.elt, ast.Tuple)
                         and isinstance(g.target, ast.Tuple) and len(g.target.elts) == len(it.elt.elts)
                         and all(isinstance(x, ast.Name) for x in g.target.elts)):
@@ -469,11 +471,79 @@ def fuse_generators(fn, find_method=None, find_function=None, rounds=3):
             return node
         visit_GeneratorExp = visit_ListComp = visit_SetComp = visit_DictComp = _comp
 
+    local_gens = {}
     for _ in range(rounds):
         T.changed = False
+        local_gens.clear()
+        local_gens.update(single_assignments(fn))
         T().visit(fn)
         if not T.changed:
             break
+    ast.fix_missing_locations(fn)
+    return set_parents(fn)
+
+
+def degroup_loops(fn):
+    """Copy of fn where a loop over the groups of pairs produced key by key reads as the loop over the keys:
+        for k, g in groupby(((k', x) for k' in K for x in X if c), key=itemgetter(0)): BODY
+            ->   for k in K:  g = ((k, x) for x in X if c);  BODY
+    (the generator possibly bound to a local first). The only difference — BODY does not run for a key without items —
+    does not matter to a reader who asks what k and the items of g range over."""
+    fn = clone(fn)
+    defs = single_assignments(fn)
+
+    def conv(loop):
+        c = loop.iter
+        if not (isinstance(c, ast.Call) and norm_(c.func).split(".")[-1] == "groupby" and c.args
+                and isinstance(loop.target, ast.Tuple) and len(loop.target.elts) == 2
+                and all(isinstance(t, ast.Name) for t in loop.target.elts)):
+            return None
+        src = c.args[0]
+        if isinstance(src, ast.Name) and src.id in defs:
+            src = defs[src.id]
+        key = c.args[1] if len(c.args) > 1 else next((k.value for k in c.keywords if k.arg == "key"), None)
+        if not (isinstance(src, (ast.GeneratorExp, ast.ListComp)) and len(src.generators) >= 2
+                and isinstance(src.generators[0].target, ast.Name) and not src.generators[0].ifs
+                and isinstance(src.elt, ast.Tuple)):
+            return None
+        idx = None
+        if isinstance(key, ast.Call) and norm_(key.func).split(".")[-1] == "itemgetter" and len(key.args) == 1 \
+                and isinstance(key.args[0], ast.Constant) and isinstance(key.args[0].value, int):
+            idx = key.args[0].value
+        elif isinstance(key, ast.Lambda) and len(key.args.args) == 1 and isinstance(key.body, ast.Subscript) \
+                and isinstance(key.body.value, ast.Name) and key.body.value.id == key.args.args[0].arg \
+                and isinstance(key.body.slice, ast.Constant) and isinstance(key.body.slice.value, int):
+            idx = key.body.slice.value
+        outer = src.generators[0].target.id
+        if idx is None or not (0 <= idx < len(src.elt.elts)) or not (
+                isinstance(src.elt.elts[idx], ast.Name) and src.elt.elts[idx].id == outer):
+            return None
+        kname, gname = loop.target.elts[0].id, loop.target.elts[1].id
+        ren = {outer: ast.Name(id=kname, ctx=ast.Load())}
+        inner = ast.GeneratorExp(elt=substitute(src.elt, ren), generators=[
+            ast.comprehension(target=clone(g.target), iter=substitute(g.iter, ren), ifs=[substitute(t, ren) for t in g.ifs],
+                              is_async=0) for g in src.generators[1:]])
+        new = ast.For(target=ast.Name(id=kname, ctx=ast.Store()), iter=clone(src.generators[0].iter),
+                      body=[ast.Assign(targets=[ast.Name(id=gname, ctx=ast.Store())], value=inner)] + loop.body,
+                      orelse=loop.orelse, type_comment=None)
+        for x in ast.walk(new):
+            if isinstance(x, (ast.expr, ast.stmt)) and getattr(x, "lineno", None) is None:
+                x.lineno, x.col_offset = loop.lineno, loop.col_offset
+                x.end_lineno, x.end_col_offset = getattr(loop, "end_lineno", loop.lineno), getattr(loop, "end_col_offset", 0)
+        return ast.copy_location(new, loop)
+
+    def rewrite(stmts):
+        out = []
+        for s in stmts:
+            for field in ("body", "orelse", "finalbody"):
+                if isinstance(getattr(s, field, None), list):
+                    setattr(s, field, rewrite(getattr(s, field)))
+            for h in getattr(s, "handlers", []):
+                h.body = rewrite(h.body)
+            new = conv(s) if isinstance(s, ast.For) else None
+            out.append(new if new is not None else s)
+        return out
+    fn.body = rewrite(fn.body)
     ast.fix_missing_locations(fn)
     return set_parents(fn)
 
